@@ -840,3 +840,152 @@ pub fn check_c03(cx: &Ctx, rep: &mut Report) {
         }
     }
 }
+
+// ---------------------------------------------------------------------------------------
+// C16: invitations are idempotent, consent-gated and harmless to existing groups
+// ---------------------------------------------------------------------------------------
+
+pub fn check_c16(cx: &Ctx, rep: &mut Report) {
+    let g = cx.g;
+    let w = cx.w;
+    let me = &g.member;
+    let mut reported: std::collections::BTreeSet<String> = Default::default();
+    let rstate = |st: &StateRec| -> String {
+        match &st.g {
+            None => "not-a-member".into(),
+            Some(x) => format!("{}{}", x.record_state, if x.record_state == "inactive" && !x.own_leaf { "-evicted" } else { "" }),
+        }
+    };
+    for s in 0..g.states.len() {
+        let st = &g.states[s];
+        for e in &g.edges[s] {
+            let tg = &g.states[e.target];
+            let (act, i) = match e.action {
+                Action::Welcome(i) => ("process", i),
+                Action::Accept(i) => ("accept", i),
+                Action::Decline(i) => ("decline", i),
+                _ => {
+                    // (2) nothing but accept_welcome makes a group active
+                    if rstate(st) != "active" && rstate(tg) == "active" {
+                        let class = format!("active-without-accept|via={}", abstract_trace(cx, &[e.action]));
+                        if reported.insert(class.clone()) {
+                            let mut path = g.path_to(s);
+                            path.push(e.action);
+                            rep.finding(format!("C16|{class}"), format!("{me}: the group became active without accept_welcome: {}", trace_labels(cx, &path).join(" ; ")), detail(cx, &path, json!({})));
+                        }
+                    }
+                    continue;
+                }
+            };
+            let kind = w.welcome_kinds.get(i).cloned().unwrap_or_else(|| "original".into());
+            let own = w.welcomes[i].2 == *me;
+            let from = rstate(st);
+            rep.case(&format!("{act}|{kind}|own={own}|{from}|{}|{}", e.result, rstate(tg)));
+            rep.outcome(&format!("{act}:{kind}:own={own}:{from}->{}:{}", rstate(tg), e.result));
+            let mut bad: Vec<String> = Vec::new();
+            let same_obs = st.obs_hash == tg.obs_hash;
+            if e.panicked {
+                bad.push("panic".into());
+            }
+            // (1) processing the very same invitation again returns the stored welcome and changes nothing
+            if act == "process" {
+                match st.welcome_dedup.get(i).map(|x| x.as_str()) {
+                    Some("processed") => {
+                        if e.result != "Welcome" {
+                            bad.push("reprocessing-does-not-return-the-stored-welcome".into());
+                        }
+                        if !same_obs {
+                            bad.push("reprocessing-changed-state".into());
+                        }
+                    }
+                    Some("failed") => {
+                        if !same_obs {
+                            bad.push("failed-invitation-changed-state-on-retry".into());
+                        }
+                    }
+                    _ => {}
+                }
+                // (2) a merely received invitation never yields an active group
+                if from != "active" && rstate(tg) == "active" {
+                    bad.push("active-without-accept".into());
+                }
+                // a failed invitation has no effect at all
+                if e.result.starts_with("Err") && !same_obs {
+                    bad.push("failed-invitation-changed-state".into());
+                }
+            }
+            if act == "decline" && from != "active" && rstate(tg) == "active" {
+                bad.push("declined-invitation-yields-active-group".into());
+            }
+            // (4) no invitation modifies or disables a group in which the user is already an active member
+            if from == "active" {
+                let before = st.g.as_ref().unwrap();
+                let after = tg.g.as_ref();
+                let untouched = after.map(|a| a.mls == before.mls && a.record == before.record && a.relays == before.relays && a.messages == before.messages && a.own_leaf == before.own_leaf).unwrap_or(false);
+                if !untouched {
+                    bad.push(format!("active-group-disturbed-by-{act}"));
+                }
+            }
+            // (3) accepting a valid invitation puts the joiner in the inviter's post-commit state, with a pending key rotation
+            let mut rel = String::new();
+            if act == "accept" && e.result == "Ok" && !kind.starts_with("forged") && own {
+                if let Some(node) = w.welcome_nodes.get(i).and_then(|p| w.nodes.get(p)) {
+                    // is the invitation newer than what the recipient currently holds?
+                    let cur = st.g.as_ref().and_then(|x| x.mls.as_ref().map(|m| m.epoch));
+                    rel = match cur {
+                        None => "|invitation-vs-current=no-current-state".into(),
+                        Some(c) if node.core.epoch > c => "|invitation-vs-current=newer".into(),
+                        Some(c) if node.core.epoch == c => "|invitation-vs-current=same-epoch".into(),
+                        Some(_) => "|invitation-vs-current=older".into(),
+                    };
+                    match &tg.g {
+                        Some(a) if a.record_state == "active" => {
+                            if a.mls.as_ref() != Some(&node.core) {
+                                bad.push("joiner-state-differs-from-inviter".into());
+                            }
+                            if a.record["self_update"] != "required" {
+                                bad.push("no-pending-key-rotation-after-join".into());
+                            }
+                            if record_mismatch(a).is_some() {
+                                bad.push("joiner-record-differs-from-mls-state".into());
+                            }
+                        }
+                        _ => bad.push("accept-did-not-activate".into()),
+                    }
+                }
+            }
+            // (4b) later events of the existing group are processed exactly as without the invitation
+            if from == "active" && (act == "process" || act == "decline") && bad.is_empty() {
+                for j in 0..w.pool.len() {
+                    if let (Some(x), Some(y)) = (g.follow(s, Action::Deliver(j)), g.follow(e.target, Action::Deliver(j))) {
+                        if x.result != y.result {
+                            bad.push("later-events-processed-differently-after-invitation".into());
+                            break;
+                        }
+                    }
+                }
+            }
+            // a join is "clean" when this invitation is the only one the recipient ever touched on the way here
+            let clean_join = act == "accept" && {
+                let p = g.path_to(s);
+                let others = p.iter().any(|a| matches!(a, Action::Welcome(j) | Action::Accept(j) | Action::Decline(j) if *j != i));
+                let processed_once = p.iter().filter(|a| matches!(a, Action::Welcome(j) if *j == i)).count() == 1;
+                let no_consent_before = !p.iter().any(|a| matches!(a, Action::Accept(_) | Action::Decline(_)));
+                !others && processed_once && no_consent_before && kind == "original"
+            };
+            // was the existing group's record still the faithful mirror of its MLS state before this step?
+            if from == "active" {
+                let genuine = st.g.as_ref().and_then(|x| x.mls.as_ref()).map(|m| w.node_of_auth(&m.authenticator).is_some()).unwrap_or(false);
+                rel.push_str(if genuine && st.g.as_ref().and_then(record_mismatch).is_none() { "|existing-group-genuine-and-record-intact=yes" } else { "|existing-group-genuine-and-record-intact=no" });
+            }
+            for b in bad {
+                let class = if clean_join { format!("clean-join|{b}|recipient={from}{rel}") } else { format!("{b}|invitation={kind}|own={own}|action={act}|recipient={from}{rel}") };
+                if reported.insert(class.clone()) {
+                    let mut path = g.path_to(s);
+                    path.push(e.action);
+                    rep.finding(format!("C16|{class}"), format!("{me}: {b} after [{}]", trace_labels(cx, &path).join(" ; ")), detail(cx, &path, json!({"before": st.g.as_ref().map(|x| json!({"state": x.record_state, "mls": x.mls})), "after": tg.g.as_ref().map(|x| json!({"state": x.record_state, "mls": x.mls, "record": x.record}))})));
+                }
+            }
+        }
+    }
+}
